@@ -263,6 +263,10 @@ theorem nfc_pass_undone {k : Nat → Nat} {pc : Nat → Nat → Option Nat} {dec
 theorem nfd_of_nfc (xs : List Nat) (h : ∀ c ∈ xs, c ≤ UniCompos.unicodeMax) : nfdPure (nfcPure current xs) = nfdPure xs :=
   nfdPure_nfcPure xs h
 
+/-- NFC (NFD x) = NFC x, every string, as is and repaired (the other UAX #15 invariant; immediate from `nfd_idempotent`) -/
+theorem nfc_of_nfd (fx : Fixes) (xs : List Nat) : nfcPure fx (nfdPure xs) = nfcPure fx xs := by
+  unfold nfcPure; rw [nfdPure_idem]
+
 /-- **NFC (NFC x) = NFC x**, the code as it is, every string of code points (assigned or not, U+037E included, any length) -/
 theorem nfc_idempotent (xs : List Nat) (h : ∀ c ∈ xs, c ≤ UniCompos.unicodeMax) :
     nfcPure current (nfcPure current xs) = nfcPure current xs := nfcPure_idem xs h
